@@ -8,12 +8,16 @@ structure St where
   n : Nat := 0
   bonds : List (Nat × Nat) := []
 
+/-- `chain:res:ins:name` or `chain:res:ins:name:hetero`; the hetero flag (like every annotation other than
+the four above) plays no role in the segmentation and is dropped. -/
 def parseAtom (s : String) : Option Atom :=
-  match s.splitOn ":" with
-  | [c, r, i, nm] =>
+  let mk (c r i nm : String) : Option Atom :=
     match c.toNat?, r.toInt?, i.toNat?, nm.toNat? with
     | some c, some r, some i, some nm => some ⟨c, r, i, nm⟩
     | _, _, _, _ => none
+  match s.splitOn ":" with
+  | [c, r, i, nm] => mk c r i nm
+  | [c, r, i, nm, h] => if h == "0" || h == "1" then mk c r i nm else none
   | _ => none
 
 def parseAtoms (s : String) : Option (List Atom) :=
